@@ -15,8 +15,8 @@ RULE = ("sequences of expedited SDO writes to 14xx/16xx/18xx/1Axx sub-indices wi
         "and probed behaviourally (trigger / received frame); the write-kind x PDO-state matrix is enumerated; non-trivial = sequence with "
         ">= 1 refused and >= 1 accepted write; distinct by script")
 ASSUMPTIONS = ["abort code of 'PDO currently valid / count not zero' refusals is not constrained", "re-writing an identical valid COB-ID may be refused",
-               "mapping lengths match the object (or 24 bit on a 32-bit object); dummy entries are not written through SDO",
-               "a count that includes unset (zero) entries is not constrained and such a PDO is not probed"]
+               "an entry naming fewer bits than the object has may be refused or accepted (then it must take effect as stored); dummy entries are not written through SDO",
+               "whether a count that includes unset (zero) entries is accepted is not constrained; such a PDO must stay inactive"]
 VARIANTS = ["asan"]
 
 PREOP, OP = 2, 3
